@@ -239,11 +239,14 @@ def check_seeds_and_stats(fx, R):
                 R.violated('B7', '%s::compute:loop' % cname, 'the accumulation loop starts at index %s: the first points never reach the extrema / mean' % start[0], fx.rel(f['loc']), 'E-STATE')
             else:
                 R.undecided('B7', '%s::compute:loop' % cname, 'the accumulation loop is not one of the enumerated forms over points[0..size)')
-        R.check(('+=', 'this.pointSetMean_', 'point') in ex and any(m(('/=', 'this.pointSetMean_', '$D'), s, {}) and 'size' in str(s) and 'points' in str(s) for s in ex),
+        R.form(('+=', 'this.pointSetMean_', 'point') in ex and any(m(('/=', 'this.pointSetMean_', '$D'), s, {}) and 'size' in str(s) and 'points' in str(s) for s in ex),
                 'B7', '%s::compute:mean' % cname, 'mean is not (sum of the points)/points.size(): %s' % [s for s in ex if 'pointSetMean_' in str(s)],
                 'mean = sum / size', fx.rel(f['loc']), 'E-ALG')
-        R.check(('=', 'this.scale_', ('/', 1, ('.maxCoeff', ('-', 'this.pointSetMax_', 'this.pointSetMin_')))) in ex, 'B7', '%s::compute:scale' % cname,
-                'scale is not 1/maxCoeff(max-min): %s' % [s for s in ex if 'scale_' in str(s) and s[0] == '='], 'scale = 1/maxCoeff(max - min)', fx.rel(f['loc']), 'E-ALG')
+        R.form(('=', 'this.scale_', ('/', 1, ('.maxCoeff', ('-', 'this.pointSetMax_', 'this.pointSetMin_')))) in ex, 'B7', '%s::compute:scale' % cname,
+                'scale is not 1/maxCoeff(max-min): %s' % [s for s in ex if 'scale_' in str(s) and s[0] == '='], 'scale = 1/maxCoeff(max - min)', fx.rel(f['loc']), 'E-ALG',
+                facts=[(('=', 'this.scale_', ('/', 1, ('.minCoeff', ('-', 'this.pointSetMax_', 'this.pointSetMin_')))) in ex,
+                        'scale is 1/minCoeff(max - min): the reciprocal of the SMALLEST side, not of the largest one (the preconditioned set then exceeds the unit box; a flat set divides by zero)'),
+                       (('=', 'this.scale_', ('.maxCoeff', ('-', 'this.pointSetMax_', 'this.pointSetMin_'))) in ex, 'scale is the largest side itself, not its reciprocal')])
         # order: mean/scale computed after the loop, min/max reset before it
         for g, nm in (('getPointSetMin', 'this.pointSetMin_'), ('getPointSetMax', 'this.pointSetMax_'), ('getPointSetMean', 'this.pointSetMean_'), ('getScale', 'this.scale_')):
             gf = fx.one(f['cls'] + '::' + g)
@@ -251,7 +254,7 @@ def check_seeds_and_stats(fx, R):
                 R.undecided('B7', '%s::%s' % (cname, g), 'accessor vanished')
                 continue
             R.used(gf)
-            R.check(returns(gf) == [nm], 'B7', '%s::%s' % (cname, g), '%s returns %s, not %s' % (g, returns(gf), nm), 'returns ' + nm, fx.rel(gf['loc']), 'E-SIB')
+            R.form(returns(gf) == [nm], 'B7', '%s::%s' % (cname, g), '%s returns %s, not %s' % (g, returns(gf), nm), 'returns ' + nm, fx.rel(gf['loc']), 'E-SIB')
 
 
 def seed_node(f, varname):
@@ -280,7 +283,7 @@ def check_containers(fx, R):
         ex = exprs(f)
         rets = returns(f)
         whole = len(loops) == 1 and deep_unwrap(sx(loops[0]['range'])) == 'points'
-        R.check(whole, 'B7', 'EigenContainers::%s:range' % kind, 'the loop does not run over the whole container%s' % tag, 'visits every point' + tag, loc, 'E-STATE')
+        R.form(whole, 'B7', 'EigenContainers::%s:range' % kind, 'the loop does not run over the whole container%s' % tag, 'visits every point' + tag, loc, 'E-STATE')
         if kind in ('min', 'max'):
             acc = rets[0] if len(rets) == 1 and isinstance(rets[0], str) else None
             upd = [s_ for s_ in ex if isinstance(s_, tuple) and s_[0] == '=' and s_[1] == acc]
@@ -288,7 +291,7 @@ def check_containers(fx, R):
             if acc is None or len(upd) != 1:
                 R.undecided('B7', 'EigenContainers::%s:update' % kind, 'accumulator update not recognised%s' % tag)
                 continue
-            R.check(okop, 'B7', 'EigenContainers::%s:update' % kind, 'running %simum is updated by %s%s' % (kind, upd[0][2], tag), 'acc <- %s(acc, point)' % kind + tag, loc, 'E-SIB')
+            R.form(okop, 'B7', 'EigenContainers::%s:update' % kind, 'running %simum is updated by %s%s' % (kind, upd[0][2], tag), 'acc <- %s(acc, point)' % kind + tag, loc, 'E-SIB')
             seed = seed_node(f, acc)
             cv = const_value(seed) if seed is not None else None
             t = strip_casts(seed)['t'] if seed is not None else {}
@@ -302,7 +305,7 @@ def check_containers(fx, R):
         else:
             acc = rets[0] if len(rets) == 1 and isinstance(rets[0], str) else None
             ok = acc is not None and ('+=', acc, 'point') in ex and ('/=', acc, ('.size', 'points')) in ex and ex.index(('+=', acc, 'point')) < ex.index(('/=', acc, ('.size', 'points')))
-            R.check(ok, 'B7', 'EigenContainers::mean', 'mean is %s, expected (sum of the points) / size%s' % (ex, tag), 'mean = sum / size' + tag, loc, 'E-ALG')
+            R.form(ok, 'B7', 'EigenContainers::mean', 'mean is %s, expected (sum of the points) / size%s' % (ex, tag), 'mean = sum / size' + tag, loc, 'E-ALG')
 
 
 # ---------------------------------------------------------------------------------------------
@@ -451,7 +454,7 @@ def check_obb(fx, R):
             af = fx.one(f['cls'].replace('OrientedBoundingBox', 'AxisAlignedBoundingBox') + '::' + g)
             R.used(gf, af)
             okg = gf is not None and returns(gf) == [want] and af is not None and returns(af) == ['this.' + ('centerPosition_' if 'Center' in g else 'halfWidthExtents_')]
-            R.check(okg, 'B2', '%s::%s' % (cname, g), 'accessor does not return the stored centre/half extent', 'accessor returns the stored field', fx.rel(gf['loc']) if gf else None, 'E-SIB')
+            R.form(okg, 'B2', '%s::%s' % (cname, g), 'accessor does not return the stored centre/half extent', 'accessor returns the stored field', fx.rel(gf['loc']) if gf else None, 'E-SIB')
         # B6
         t = fx.one(f['cls'] + '::toAxisAlignedBoundingBox')
         if t is None:
@@ -559,4 +562,4 @@ def check_interval(fx, R):
             gf = fx.one(cq + '::' + g)
             if gf is not None:
                 R.used(gf)
-                R.check(returns(gf) == [fld], 'B5', '%s::%s' % (cname, g), '%s() returns %s' % (g, returns(gf)), 'accessor returns its bound', fx.rel(gf['loc']), 'E-SIB')
+                R.form(returns(gf) == [fld], 'B5', '%s::%s' % (cname, g), '%s() returns %s' % (g, returns(gf)), 'accessor returns its bound', fx.rel(gf['loc']), 'E-SIB')
